@@ -68,6 +68,19 @@ def clientOk [BEq α] (streaming : Bool) : Did α → Saw α → Bool
   | .responded md [m] none, .single md' m' => !streaming && m' == m && carried md md'
   | _, _ => false
 
+/-- **Response direction, single-response client facing a handler that streams** (the wire shape any gRPC
+server may produce for a unary call that fails after it has produced output: HEADERS, messages, then an
+error status in the TRAILERS).  The caller must be given that error - code, message, details, and every
+metadata entry of the status; when NO message preceded it the client merges the response headers into the
+status (names the headers also carry are C08's subject and left out here). -/
+def clientOkMixed : Did α → Saw α → Bool
+  | .responded md msgs (some want), .failed got =>
+    want.code != 0 && got.code == want.code && got.message == want.message && got.details == want.details &&
+      (HMap.keys want.metadata).all (fun k =>
+        protocolNames.contains k || (msgs.isEmpty && !(HMap.getAll k md).isEmpty) ||
+          HMap.getAll k got.metadata == HMap.getAll k want.metadata)
+  | _, _ => false
+
 /-- What the caller sent. -/
 structure Sent (α : Type) where
   md : HMap
